@@ -184,6 +184,9 @@ func run(scriptPath string) int {
 	conf := filepath.Join(sc.Dir, "Casketfile")
 	casket.RegisterCasketfileLoader("verif", fileLoader{conf})
 	casket.TrapSignals()
+	// casket registers its handlers in goroutines it has just started; a signal
+	// sent before they ran would get the default action
+	time.Sleep(20 * time.Millisecond)
 
 	res := &Result{}
 	flush := func() {
@@ -242,6 +245,11 @@ func run(scriptPath string) int {
 						return
 					}
 					time.Sleep(2 * time.Millisecond)
+				}
+				if !strings.Contains(logSince(logFile, off), "SIGUSR1: Reloading") {
+					// the handler never saw the signal (e.g. it was not yet registered): no verdict
+					done <- fmt.Errorf("SIGNAL-NOT-HANDLED")
+					return
 				}
 				done <- fmt.Errorf("HUNG-RELOAD")
 			case "occupy":
@@ -410,6 +418,9 @@ func Spawn(sc *Script, timeout time.Duration) (*Result, error) {
 		res.ExitCode = ee.ExitCode()
 	} else if werr != nil {
 		res.ExitCode = -1
+	}
+	if lb, err := os.ReadFile(filepath.Join(sc.Dir, "process.log")); err == nil && res.Log == "" {
+		res.Log = tailStr(string(lb), 1<<16)
 	}
 	if eb, err := os.ReadFile(filepath.Join(sc.Dir, "events.log")); err == nil {
 		for _, l := range strings.Split(strings.TrimSpace(string(eb)), "\n") {
